@@ -54,7 +54,8 @@ def make_case(seed, t, nmax, precs="sd", drivers=("gssv",), force=None):
 
 def script_for(cfg, M, rhs):
     single = cfg["prec"] in "sc"
-    fill = cfg.get("fill") or (-50, -50, -30)
+    # storage estimates (sp_ienv 6-8, negative = multiple of nnz(A)): star/arrow patterns fill to O(n^2), so scale with n
+    fill = cfg.get("fill") or ((-50, -50, -30) if cfg["n"] <= 48 else (-(cfg["n"] + 20), -(cfg["n"] + 20), -(cfg["n"] + 20)))
     s = "ienv %d %d %d %d %d %d %d %d\n" % ((cfg["panel"], cfg["relax"], cfg["maxsuper"], cfg["rowblk"], cfg["colblk"]) + tuple(fill))
     s += "perturb %d %d\n" % (cfg["perturb"], cfg["t"] + 1)
     if cfg.get("evlog"):
@@ -212,6 +213,12 @@ def judge(ctx, recs, fields, what, need_info0=True):
     bad = 0
     for r in recs:
         cfg = r["cfg"]
+        if r["status"] == "crash" and r.get("rc") not in (None,) and r["rc"] > 0 and "Sanitizer" not in (r.get("err") or "") and \
+                ("exceeded; Current column" in (r.get("err") or "")) and "sp_ienv" in (r.get("err") or ""):
+            # the library stopped with its storage-estimate diagnostic: the tunables (sp_ienv 6-8) were too small for this input.
+            # That is the documented outcome of an insufficient estimate (property C05), not a failure of the property judged here.
+            ctx.coverage["estimate_exceeded_runs"] = ctx.coverage.get("estimate_exceeded_runs", 0) + 1
+            continue
         if r["status"] != "ok":
             bad += 1
             ctx.violation("%s:%s" % (what, r["status"]), "%s: harness %s (rc=%s) prec=%s n=%d P=%d kind=%s driver=%s: %s" % (
